@@ -1,6 +1,8 @@
 """C16 - wire framing is byte-exact in both directions (fault enumeration)."""
 from __future__ import annotations
 
+import os
+
 from .. import frames, gen
 from ..sim import CANON, ROOT
 from . import base
@@ -197,7 +199,9 @@ def seeded(g):
         return rng.choice([nid[0], f"s{nid[0]}", f"ü{nid[0]}"])
 
     lines = src.split("\n")
-    ops = [gen.initialize(1, by=rng.choice(["rootPath", "rootUri", "both"])), gen.initialized(),
+    ops = [gen.initialize(1, by=rng.choice(["rootPath", "rootUri", "both"]),
+                          extra={"processId": rng.choice([None, os.getppid() if False else 1]),
+                                 "capabilities": rng.choice([{}, gen.FULL_CAPABILITIES])}), gen.initialized(),
            gen.note("textDocument/didOpen", {"textDocument": {"uri": u, "text": src}})]
     ops.append(gen.req(rid(), "textDocument/documentSymbol", {"textDocument": {"uri": u}}))
     if twin is not None:
@@ -264,6 +268,8 @@ def seeded(g):
         if o["k"] == "msg":
             o["hdr"] = rng.choice(frames.HDR_STYLES)
             o["esc"] = rng.random() < 0.4 or j in force_esc
+            if rng.random() < 0.25:
+                o["sync"] = True  # the client writes a burst up to here, then waits for the answers
     r = rng.random()
     if r < 0.15:
         chunks = [1]
